@@ -98,6 +98,25 @@ def correspondence(ctx):
                 ctx.violation("hint sequence %s differs from the pacing model %s" % (",".join(got), mm[3:]), dict(rep, kind="tie", correspondence="Stream.hints vs ZSTD_decompressStream return values"), no_input=True)
         if len(ctx.violations) >= 8:
             break
+    # (c') a frame abandoned in the middle of a block (session reset / re-init), then another frame decoded by following the hints
+    al, ameta = [], []
+    big = [(fb, x) for fb, x in frs if 3000 < len(fb) < 300000]
+    for _ in range(60 if ctx.quick() else 800):
+        if not big:
+            break
+        fa, xa = rng.choice(big); fb2, xb = rng.choice(frs)
+        if len(fb2) >= 300000:
+            continue
+        cut = rng.randrange(20, len(fa) - 1)
+        al.append("decabandon %s %d %d %s %d" % (frames.hx(fa), cut, rng.randint(0, 1), frames.hx(fb2), rng.choice([1, 7, 100, 1000, 5000])))
+        ameta.append(xb)
+    ares = frames.parallel(lambda ch: frames.run_lines(exe, ch, timeout=1800)[1], frames.split_chunks(al, 16))
+    aw = frames.parallel(lambda ch: frames.run_lines(exe, ch)[1], frames.split_chunks(["xxh " + frames.hx(x) for x in ameta], 16))
+    for ln, r, ww in zip(al, ares, aw):
+        ev += 1
+        if " ".join(r.split()[:3]) != ww or "hintsBeyond=1" in r:
+            ctx.violation("after an abandoned frame and a reset, a valid frame fed by following the decoder's requests: %s (expected %s)" % (r[:120], ww), dict(kind="monitor", op=ln[:400000], result=r[:300]))
+            break
     return dict(evaluations=ev, distinct_nontrivial=len({l[:150] + str(len(l)) for l in lines}),
                 rule="compression call histories (single-threaded and 1-3 workers; a profile with one slow worker and job-sized pushes followed by flush) with every completed flush checked by the prefix decoder; "
                      "hint-following decoding of compositions with skippable frames at several output chunk sizes; distinct = distinct call lines",
